@@ -277,6 +277,12 @@ func (h *ForkableHub) bootstrap(blk *pbbstream.Block) error {
 		zlog.Warn("cannot initialize forkDB from one-block-files (hole between live and one-block-files). Will retry on every incoming live block.", zap.Uint64("forkdb_head_block", fdb_head), zap.Stringer("blk_from_live", blk.AsRef()))
 		return nil
 	}
+	if _, _, _, _, err := h.forkable.HeadInfo(); err != nil {
+		// the live block links to its LIB through blocks that were stored before their ancestors
+		// arrived (out-of-order one-block files): nothing was sent yet, so there is no chain to serve
+		zlog.Info("live block is linkable but forkDB has no head yet, will retry on next live block", zap.Stringer("blk_from_live", blk.AsRef()))
+		return nil
+	}
 	zlog.Info("hub is now Ready")
 
 	h.ready = true
